@@ -2,10 +2,15 @@
    PARTIAL: the parameter-list algorithm of the parser (sticky BYREF/BYVAL modes, types shared by
    `a, b : T` groups) is proved equal to its documented meaning for every parameter list of up to 4
    parameters (exhaustively: 1555 lists, 6 written forms per parameter, with and without --pedantic).
-   BYVAL isolation, BYREF aliasing and per-activation locals are properties of Eval.v's binding code
-   (fresh cell for BYVAL, the argument's own cell id for BYREF, a fresh context per call) that are
-   compared with the implementation by the correspondence, under the sanitizer build too. *)
-From PE2 Require Import Parser Lemmas_Calls.
+   On the functions the evaluator uses (Lemmas_Scope.v): a name is looked up in the activation's own table first and otherwise
+   in the table of the root (global) context, never in a caller's; a call runs in a context under a never-used identifier with
+   empty tables whose parent is the caller; a BYREF parameter is entered in the callee's table with the identifier of the
+   caller's own cell, a BYVAL parameter with the identifier of a cell allocated by the call; a wrong argument count, a BYREF
+   argument of another type and a BYREF argument that is not a variable never produce a value.
+   PARTIAL: that a function call yields the value of the RETURN it executed, and the lifetime of locals, are compared with the
+   implementation by the correspondence, under the sanitizer build too. *)
+From PE2 Require Import Parser Eval Lemmas_Calls Lemmas_DeepCopy Lemmas_Scope.
+Local Open Scope N_scope.
 
 Theorem C04_sticky_modes_and_type_groups : forall ps ped,
   In ps (lists_upto 4) -> well_formed_list ps = true -> check_params ped ps = true.
@@ -18,3 +23,70 @@ Example C04_examples :
   group_types [(MRef, false); (MNone, true); (MVal, true)] 0 = [Some 1%nat; Some 1%nat; Some 2%nat] /\
   In [(MRef, false); (MNone, true); (MVal, true)] (lists_upto 4).
 Proof. vm_compute. repeat split; try reflexivity. tauto. Qed.
+
+(* name resolution: own locals first, otherwise the global table; no context in between is consulted *)
+Theorem C04_names_resolve_locally_then_globally : forall c name global s r s', lookup_var c name global s = (Ok r, s') ->
+  s' = s /\ exists cx, nm_get c (s_ctxs s) = Some cx /\
+  match assoc_str name (x_vars cx) with
+  | Some id => r = Some id
+  | None => (r = None /\ (global = false \/ x_parent cx = None)) \/
+            (global = true /\ exists root rc, nm_get root (s_ctxs s) = Some rc /\ x_parent rc = None /\ r = assoc_str name (x_vars rc))
+  end.
+Proof. exact lookup_var_spec. Qed.
+Print Assumptions C04_names_resolve_locally_then_globally.
+
+Theorem C04_a_local_hides_the_global : forall c name global s cx id, nm_get c (s_ctxs s) = Some cx -> assoc_str name (x_vars cx) = Some id ->
+  lookup_var c name global s = (Ok (Some id), s).
+Proof. exact local_first. Qed.
+Print Assumptions C04_a_local_hides_the_global.
+
+(* every activation has its own, initially empty, tables under an identifier no context ever had *)
+Theorem C04_activation_is_fresh : forall parent name isfun rett s id s', hb s -> new_ctx (Some parent) name isfun false rett s = (Ok id, s') ->
+  id = s_next s /\ nm_get id (s_ctxs s) = None /\
+  exists d, nm_get id (s_ctxs s') = Some (mkCtx (Some parent) name [] [] [] [] [] isfun false rett None None d) /\
+  (forall j x, nm_get j (s_ctxs s) = Some x -> nm_get j (s_ctxs s') = Some x) /\ s_cells s' = s_cells s /\ s_arrs s' = s_arrs s.
+Proof. exact activation_is_fresh. Qed.
+Print Assumptions C04_activation_is_fresh.
+
+(* BYREF: the callee's name denotes the caller's cell itself *)
+Theorem C04_byref_binds_the_callers_cell : forall self t pn pty pr ta rs ar v vr c fc s id s1,
+  dt_eq pty (r_type v) = true -> ev_resolve self rs c s = (Ok (HVar id), s1) ->
+  bind_args_body self t ((pn, pty, true) :: pr) (NAccess ta rs :: ar) (v :: vr) c fc s =
+  (add_var fc pn id ;;; ev_bind_args self t pr ar vr c fc) s1.
+Proof. exact byref_binds_the_callers_cell. Qed.
+Print Assumptions C04_byref_binds_the_callers_cell.
+
+(* BYVAL: the callee's name denotes a cell allocated by this call, holding the converted value *)
+Theorem C04_byval_binds_a_new_cell : forall self t pn pty pr a ar v vr c fc s v' s1 p0,
+  implicit_cast pty v s = (Ok v', s1) -> dt_eq pty (r_type v') = true -> default_prim (r_type v') = Some p0 ->
+  ev_new_var self = new_var_body self ->
+  bind_args_body self t ((pn, pty, false) :: pr) (a :: ar) (v :: vr) c fc s =
+  ((assign_val hfuel (s_next s1) v' ;;; add_var fc pn (s_next s1)) ;;; ev_bind_args self t pr ar vr c fc)
+    (alloc_cell (mkCell pn (r_type v') false fc p0) s1).
+Proof. exact byval_binds_a_new_cell. Qed.
+Print Assumptions C04_byval_binds_a_new_cell.
+
+(* the premise on the evaluator record holds at every fuel level above zero *)
+Example C04_new_var_is_the_body : forall ped repl lim f, ev_new_var (evs_at ped repl lim (S f)) = new_var_body (evs_at ped repl lim f).
+Proof. reflexivity. Qed.
+
+(* call errors never produce a value *)
+Theorem C04_wrong_argument_count_procedure : forall lim self t name args c s pd,
+  assoc_str name (s_procs s) = Some pd -> List.length args <> List.length (pd_params pd) ->
+  exists f s', call_procedure_body lim self t name args c s = (Fail f, s').
+Proof. exact wrong_argument_count_procedure. Qed.
+Print Assumptions C04_wrong_argument_count_procedure.
+Theorem C04_wrong_argument_count_function : forall lim self t args c s fd,
+  builtin_sig (tval t) = None -> assoc_str (tval t) (s_funcs s) = Some fd -> List.length args <> List.length (fd_params fd) ->
+  exists f s', call_function_body lim self t args c s = (Fail f, s').
+Proof. exact wrong_argument_count_function. Qed.
+Print Assumptions C04_wrong_argument_count_function.
+Theorem C04_wrong_byref_argument_type : forall self t pn pty pr a ar v vr c fc s, dt_eq pty (r_type v) = false ->
+  exists f s', bind_args_body self t ((pn, pty, true) :: pr) (a :: ar) (v :: vr) c fc s = (Fail f, s').
+Proof. exact wrong_argument_type_byref. Qed.
+Print Assumptions C04_wrong_byref_argument_type.
+Theorem C04_byref_argument_must_be_a_variable : forall self t pn pty pr a ar v vr c fc s,
+  dt_eq pty (r_type v) = true -> (forall ta rs, a <> NAccess ta rs) ->
+  exists f s', bind_args_body self t ((pn, pty, true) :: pr) (a :: ar) (v :: vr) c fc s = (Fail f, s').
+Proof. exact byref_argument_must_be_a_variable. Qed.
+Print Assumptions C04_byref_argument_must_be_a_variable.
